@@ -1,0 +1,63 @@
+//go:build verif
+
+// Machine-checked contracts for this package (comment-only; compiled only with -tags verif,
+// and even then contributes no code).  Read by /verif/govc; see /verif/DESIGN.md.
+
+package parser
+
+//@ -- ---------------------------------------------------------------- C07: label-restriction summaries (leaves)
+//@ -- (thin) The summary a leaf node reports is no stronger than what the node's own Evaluate requires:
+//@ --   a == 'v'            : label a must be present with value v - and nothing about other labels
+//@ --   has(a), contains/starts/ends with : label a must be present, no value restriction
+//@ --   a != 'v', a not in {...} : NO restriction (they match when the label is absent)
+//@ --   !has(a)             : label a must be absent; !(anything else): NO restriction
+//@ spec macro lrOnly(m map[uniquestr.Handle]LabelRestriction, k uniquestr.Handle) bool = m != nil && (k in m) && (forall j uniquestr.Handle :: (j in m) ==> j == k)
+//@ func (*LabelEqValueNode).LabelRestrictions
+//@   property C07
+//@   option safety off
+//@   requires node != nil
+//@   ensures lrOnly(res, node.LabelName) && res[node.LabelName].MustBePresent && !res[node.LabelName].MustBeAbsent && len(res[node.LabelName].MustHaveOneOfValues) == 1 && res[node.LabelName].MustHaveOneOfValues[0] == node.Value
+//@ func (*HasNode).LabelRestrictions
+//@   property C07
+//@   option safety off
+//@   requires node != nil
+//@   assigns nothing
+//@   ensures lrOnly(res, node.LabelName) && res[node.LabelName].MustBePresent && !res[node.LabelName].MustBeAbsent && res[node.LabelName].MustHaveOneOfValues == nil
+//@ func (*LabelContainsValueNode).LabelRestrictions
+//@   property C07
+//@   option safety off
+//@   requires node != nil
+//@   ensures lrOnly(res, node.LabelName) && res[node.LabelName].MustBePresent && !res[node.LabelName].MustBeAbsent && res[node.LabelName].MustHaveOneOfValues == nil
+//@ func (*LabelStartsWithValueNode).LabelRestrictions
+//@   property C07
+//@   option safety off
+//@   requires node != nil
+//@   ensures lrOnly(res, node.LabelName) && res[node.LabelName].MustBePresent && !res[node.LabelName].MustBeAbsent && res[node.LabelName].MustHaveOneOfValues == nil
+//@ func (*LabelEndsWithValueNode).LabelRestrictions
+//@   property C07
+//@   option safety off
+//@   requires node != nil
+//@   ensures lrOnly(res, node.LabelName) && res[node.LabelName].MustBePresent && !res[node.LabelName].MustBeAbsent && res[node.LabelName].MustHaveOneOfValues == nil
+//@ func (*LabelNeValueNode).LabelRestrictions
+//@   property C07
+//@   ensures res == nil
+//@ func (*LabelNotInSetNode).LabelRestrictions
+//@   property C07
+//@   ensures res == nil
+//@ func (*LabelInSetNode).LabelRestrictions
+//@   property C07
+//@   option safety off
+//@   option stable (*LabelInSetNode).LabelName, map[uniquestr.Handle]LabelRestriction, (*uniquestr.Handle).value
+//@   requires node != nil
+//@   ensures lrOnly(res, node.LabelName) && res[node.LabelName].MustBePresent && !res[node.LabelName].MustBeAbsent
+//@ func (LabelRestriction).PossibleToSatisfy
+//@   property C07
+//@   ensures res == (!(r.MustBePresent && r.MustBeAbsent) && !(r.MustHaveOneOfValues != nil && len(r.MustHaveOneOfValues) == 0))
+//@ func (*NotNode).LabelRestrictions
+//@   property C07
+//@   option safety off
+//@   option stable (*HasNode).LabelName
+//@   requires node != nil && (istype(node.Operand, *HasNode) ==> cast(node.Operand, *HasNode) != nil)
+//@   ensures !istype(old(node.Operand), *HasNode) ==> res == nil
+//@   ensures istype(old(node.Operand), *HasNode) ==> lrOnly(res, old(cast(node.Operand, *HasNode).LabelName)) && res[old(cast(node.Operand, *HasNode).LabelName)].MustBeAbsent && !res[old(cast(node.Operand, *HasNode).LabelName)].MustBePresent && res[old(cast(node.Operand, *HasNode).LabelName)].MustHaveOneOfValues == nil
+//@   loop 1 invariant lrOnly(lr, hasNode.LabelName) && (visited[hasNode.LabelName] ==> (lr[hasNode.LabelName].MustBeAbsent && !lr[hasNode.LabelName].MustBePresent && lr[hasNode.LabelName].MustHaveOneOfValues == nil))
